@@ -12,7 +12,15 @@ func (s *monitorContext) GetMatch(idx int) string {
 	return ""
 }
 
+// StaticProbeKey is a key that only the static-analysis context answers (with the key itself).
+// A stage that keeps state between evaluations (eg. a detected time format) can ask for it to tell
+// the optimizer's dry run, where every match and key is empty, from the evaluation of a real match
+const StaticProbeKey = "\x00static-probe"
+
 func (s *monitorContext) GetKey(key string) string {
+	if key == StaticProbeKey {
+		return StaticProbeKey
+	}
 	s.keyLookups++
 	return ""
 }
